@@ -58,9 +58,13 @@ func TypeOf(t *idl.Type) byte {
 	return 0
 }
 
-type Enc struct{ B []byte }
+type Enc struct {
+	B  []byte
+	TB []int // offsets of every type byte written (field headers, element/key/value types)
+}
 
 func (e *Enc) u8(v byte)    { e.B = append(e.B, v) }
+func (e *Enc) tb(v byte)    { e.TB = append(e.TB, len(e.B)); e.B = append(e.B, v) }
 func (e *Enc) i16(v int16)  { e.B = binary.BigEndian.AppendUint16(e.B, uint16(v)) }
 func (e *Enc) i32(v int32)  { e.B = binary.BigEndian.AppendUint32(e.B, uint32(v)) }
 func (e *Enc) i64(v int64)  { e.B = binary.BigEndian.AppendUint64(e.B, uint64(v)) }
@@ -98,7 +102,7 @@ func (e *Enc) Value(t *idl.Type, v *idl.Val, marks *[]FieldMark, depth int) erro
 	case "string", "binary":
 		e.str(v.S)
 	case "list", "set":
-		e.u8(TypeOf(r.Elem))
+		e.tb(TypeOf(r.Elem))
 		e.i32(int32(len(v.L)))
 		for _, x := range v.L {
 			if err := e.Value(r.Elem, x, marks, depth+1); err != nil {
@@ -106,8 +110,8 @@ func (e *Enc) Value(t *idl.Type, v *idl.Val, marks *[]FieldMark, depth int) erro
 			}
 		}
 	case "map":
-		e.u8(TypeOf(r.Key))
-		e.u8(TypeOf(r.Elem))
+		e.tb(TypeOf(r.Key))
+		e.tb(TypeOf(r.Elem))
 		e.i32(int32(len(v.M)))
 		for _, kv := range v.M {
 			if err := e.Value(r.Key, kv[0], marks, depth+1); err != nil {
@@ -133,7 +137,7 @@ func (e *Enc) Struct(d *idl.Def, v *idl.Val, marks *[]FieldMark, depth int) erro
 			continue
 		}
 		start := len(e.B)
-		e.u8(TypeOf(f.Type))
+		e.tb(TypeOf(f.Type))
 		e.i16(int16(f.ID))
 		if err := e.Value(f.Type, x, marks, depth+1); err != nil {
 			return err
@@ -147,6 +151,16 @@ func (e *Enc) Struct(d *idl.Def, v *idl.Val, marks *[]FieldMark, depth int) erro
 }
 
 // EncodeStruct is the reference encoding of a struct value (fields present in v only).
+// EncodeStructTB also returns the offsets of all type bytes.
+func EncodeStructTB(d *idl.Def, v *idl.Val) ([]byte, []FieldMark, []int) {
+	e := &Enc{}
+	var marks []FieldMark
+	if err := e.Struct(d, v, &marks, 0); err != nil {
+		panic(err)
+	}
+	return e.B, marks, e.TB
+}
+
 func EncodeStruct(d *idl.Def, v *idl.Val) ([]byte, []FieldMark, error) {
 	e := &Enc{}
 	var marks []FieldMark
